@@ -187,14 +187,27 @@ def run_mc_walk(pid, scn, gh_exe, timeout=3600, heap="6g"):
                 pass
             res["crash"] = {"rc": gh.returncode, "note": note, "stderr": err.decode(errors="replace")[-3000:]}
     else:
+        cut = False
         with open(tlc_log, "wb") as logf:
             try:
                 subprocess.run(cmd, cwd=vf.SPEC, stdout=logf, stderr=subprocess.STDOUT, timeout=timeout, env=_tlc_env())
             except subprocess.TimeoutExpired:
-                raise vf.Infra("TLC timed out on " + scn.name)
+                cut = True
     with open(tlc_log, errors="replace") as f:
         text = f.read()
     res["tlc"] = vf.parse_tlc_output(text)
+    if not scn.walk and locals().get("cut") and not res["tlc"]["violation"]:
+        # a model-checking-only scenario (no walk) cut by the time limit without a violation: what was
+        # explored counts as explored - the numbers of the last progress line - not as exhaustive
+        import re
+        m = None
+        for m in re.finditer(r"Progress\(\d+\).*?: ([\d,]+) states generated.*?, ([\d,]+) distinct states found", text):
+            pass
+        if m:
+            res["tlc"]["generated"], res["tlc"]["distinct"] = int(m.group(1).replace(",", "")), int(m.group(2).replace(",", ""))
+        res["tlc"]["ok"] = True
+        res["cut_by_time_limit"] = True
+        vf.log("[tlc] %s cut after %ds at %d distinct states (no violation so far)" % (scn.name, timeout, res["tlc"]["distinct"]))
     res["tlc_log"] = tlc_log
     res["wall_s"] = round(time.time() - t0, 1)
     shutil.rmtree(os.path.join(d, "md"), ignore_errors=True)
